@@ -24,7 +24,22 @@ type Finding struct {
 
 // LoadFindings reads the committed known-findings file. It is never written at run time.
 func LoadFindings() ([]Finding, error) {
-	f, err := os.Open(filepath.Join(VerifRoot(), "known_findings.jsonl"))
+	var out []Finding
+	paths := []string{filepath.Join(VerifRoot(), "known_findings.jsonl")}
+	more, _ := filepath.Glob(filepath.Join(VerifRoot(), "known_findings.d", "*.jsonl"))
+	sort.Strings(more)
+	for _, p := range append(paths, more...) {
+		fs, err := loadFindingsFile(p)
+		if err != nil {
+			return nil, err
+		}
+		out = append(out, fs...)
+	}
+	return out, nil
+}
+
+func loadFindingsFile(path string) ([]Finding, error) {
+	f, err := os.Open(path)
 	if os.IsNotExist(err) {
 		return nil, nil
 	} else if err != nil {
@@ -41,7 +56,7 @@ func LoadFindings() ([]Finding, error) {
 		}
 		var fd Finding
 		if err := json.Unmarshal([]byte(line), &fd); err != nil {
-			return nil, fmt.Errorf("known_findings.jsonl: %w", err)
+			return nil, fmt.Errorf("%s: %w", path, err)
 		}
 		out = append(out, fd)
 	}
